@@ -150,6 +150,9 @@ class C12(Spec):
                     if not cnt.isdigit() or p != pos + int(cnt) or unhex(hx) != data[pos:p]:
                         return ("read-inexact", "%s returned count %s data %s, Position() %d" % (where, cnt, hx[:60], p))
             pos = p
+        if alias.startswith("tidy"):
+            return ("tidy-not-transparent", "a Tidy() inserted before an op of the decoding case on input %s is not transparent to the reader "
+                    "(cursor outside the data, unread bytes changed, or the following reads differ): %s" % ((data.hex() or "-")[:80], alias))
         if alias != "-":
             which = steps[int(alias)][1] + " (op %s)" % alias if alias.isdigit() and int(alias) < len(steps) else alias
             return ("string-result-aliases-buffer", "the string returned by %s on input %s no longer holds the announced bytes after "
